@@ -20,7 +20,9 @@ RULE = ('Hypothesis chains (1-30 steps, each one eval of a single statement on a
         'pairs of every host-suppliable numeric type: bool, int (up to 1001 digits), float (inf, nan, 1e300, denormal), '
         'Decimal (28+-digit coefficients, exponents to +-999999, NaN/Inf) and str/list operands; routes: a op b for '
         '+ - * / **, x op= b, c[k] op= b, d[k] op= b, int/float/round/floor/ceil/abs/sum/min/max, squaring and *= chains, '
-        'failing steps (sum of a mixed list) after which the chain continues. Oracle per step: (1) * ** *= on numbers give '
+        'failing steps (sum of a mixed list) after which the chain continues; 1 case in 10 is a closed program whose '
+        'operands come from len/index_of/enumerate/sum/reduce (Python ints made by builtins), squared up to 9 times, '
+        'evaluated with names omitted / None / {} and ast_names omitted / None / {}. Oracle per step: (1) * ** *= on numbers give '
         'a Decimal with <= 28 coefficient digits or raise ArithmeticError/ParserError, and never a str/list with a '
         'non-number operand; (2) every other numeric result has digits <= max(28, 1 + widest argument) (float results are '
         'fixed-size and exempt; float arguments count by their exact expansion); float() returns a number. Non-trivial: an '
@@ -115,9 +117,64 @@ def reset_context():
                                                                  decimal.Overflow]))
 
 
+INT_SOURCES = ['len("{w}")', 'len([{l}])', 'index_of([{l}], 0)', 'enumerate([{l}])[0][0]', 'enumerate([{l}, 5])[1][0]', 'len({{"a": 1, "b": 2, "c": 3}})',
+               'index_of("{w}", "b")', 'len(keys({{"p": 1, "q": 2}}))', 'sum([len("{w}"), len("ab")])', 'max(len("{w}"), 2)', 'int(len("{w}"))',
+               'abs(len("{w}"))', '{i}', 'True', 'len("{w}") + len("{w}")', 'reduce([len("{w}"), len("abc")], (p, q) => p + q)']
+CLOSED_FORMS = [('x = {A}\n{SQ}x', 'x = x * x\n'), ('x = {A}\n{SQ}x', 'x *= x\n'), ('x = {A}\n{SQ}x', 'x = x ** 2\n'), ('x = {A}\n{SQ}x', 'x **= 2\n'),
+                ('{A} * {B}', ''), ('{A} ** {B}', ''), ('{A} ** ({B} * {B} * {A})', ''), ('[{A}, {B}] | map(v => v * v)', ''),
+                ('y = [{A}, {B}]\n{SQ}y[0]', 'y[0] *= y[1]\n'), ('d = {{"k": {A}}}\n{SQ}d["k"]', 'd["k"] *= d["k"]\n'),
+                ('x = {A}\ny = {B}\n{SQ}x * y', 'x = x * y\ny = y * x\n'), ('f = v => v * v\n{SQ}f({A})', 'f = (v => f(v)) if False else f\n'),
+                ('x = {A}\n{SQ}x', 'x = x * {B}\n'), ('reduce([{A}, {B}, {A}, {B}, {A}], (p, q) => p * q) ** {B}', '')]
+CALL_STYLES = ['omitted', 'none', 'kw-none', 'empty', 'ast-none', 'ast-empty']
+
+
+def short(x):
+    if isinstance(x, int) and not isinstance(x, bool) and abs(x).bit_length() > 2000:
+        return f'an int of {abs(x).bit_length()} bits'
+    return repr(x)[:80]
+
+
+def run_closed(case):
+    """a program that spells out everything itself, evaluated the way hosts call eval() when they have nothing to bind"""
+    from smartquery import ParserError
+    reset_context()
+    src, style = case['src'], case['style']
+    p = parser()
+    fails = []
+    info = {'steps': 1, 'interesting': False, 'matrix': {'closed:' + style: 1}}
+    try:
+        if style == 'omitted':
+            r = p.eval(src, max_ops_evaluated=10 ** 4)
+        elif style == 'none':
+            r = p.eval(src, None, max_ops_evaluated=10 ** 4)
+        elif style == 'kw-none':
+            r = p.eval(src, names=None, ast_names=None, max_ops_evaluated=10 ** 4)
+        elif style == 'empty':
+            r = p.eval(src, {}, max_ops_evaluated=10 ** 4)
+        elif style == 'ast-none':
+            r = p.eval(src, {}, ast_names=None, max_ops_evaluated=10 ** 4)
+        else:
+            r = p.eval(src, None, ast_names={}, max_ops_evaluated=10 ** 4)
+    except (ArithmeticError, ParserError):
+        return fails, info
+    except Exception as e:  # noqa
+        fails.append(Failure(f'closed:mul-error:{type(e).__name__}', f'{src!r} (names {style}): raised {type(e).__name__}: {e}'[:600], case))
+        return fails, info
+    for x in (r if isinstance(r, list) else [r]):
+        if not (isinstance(x, D) and digits_result(x) <= 28):
+            fails.append(Failure(f'closed:not-decimal28:{tname(x)}', f'{src!r} (names {style}): the product/power is {short(x)} '
+                                                                     f'({tname(x)}, >= {digits_result(x) if is_num(x) else "?"} digits), not a 28-digit decimal', case))
+            break
+        if digits_result(x) > 14:
+            info['interesting'] = True
+    return fails, info
+
+
 def run_chain(case):
     """executed in the helper: -> (failures, info)"""
     from smartquery import ParserError
+    if case.get('closed'):
+        return run_closed(case)
     reset_context()
     a, b = core.dec(case['a']), core.dec(case['b'])
     names = {'a': a, 'b': b, 'c': [a], 'd': {'k': a}, 'l': core.dec(case.get('l', [])) or [a, b],
@@ -232,6 +289,12 @@ def cases(draw):
             return pick(FLOATS)
         return pick(DECS)
 
+    if n(10) == 0:
+        fill = lambda t: t.format(w='ab' * (1 + n(40)) + 'c' * n(3), l=', '.join(str(v) for v in range(1 + n(12))), i=n(2))  # noqa
+        form, sq = pick(CLOSED_FORMS)
+        src = form.replace('{SQ}', sq * (1 + n(9))).replace('{A}', fill(pick(INT_SOURCES))).replace('{B}', fill(pick(INT_SOURCES)))
+        src = src.replace('{{', '{').replace('}}', '}')
+        return {'closed': True, 'src': src, 'style': pick(CALL_STYLES), 'steps': [{'src': src}], 'a': None, 'b': None}
     a = num() if n(12) else pick(NONNUM)
     b = num() if n(15) else pick(NONNUM)
     excluded = 0
@@ -323,7 +386,8 @@ def run_job(job):
         for k, v in info['matrix'].items():
             matrix[k] = matrix.get(k, 0) + v
         st.add('steps', info['steps'])
-        return hyp.Result(fails, info['interesting'] and bool(case['steps']), ['chain' if len(case['steps']) > 3 else 'short'],
+        return hyp.Result(fails, info['interesting'] and bool(case['steps']),
+                          ['closed-program:names-' + case['style']] if case.get('closed') else ['chain' if len(case['steps']) > 3 else 'short'],
                           key=core.jdump(case),
                           sample={'a': case['a'], 'b': case['b'], 'steps': [s['src'] for s in case['steps']][:12]})
 
